@@ -1,17 +1,19 @@
 import PolyVerif.Lemmas.Uniprot
-import PolyVerif.Spec.UniprotDoc
+import PolyVerif.Lemmas.UniprotDoc
 /-
 C20 — Uniprot streaming delivers every entry once, in order, and terminates.
 
 Model: Model/Uniprot.lean (the token loop of uniprot.Parse over an abstract decoder, as a producer on the
 entries channel 0 and the errors channel 1: entry sends, close(entries), the kept errors, close(errors)).
-Spec: Spec/UniprotDoc.lean (documents with k entries, their text, and the token trace of that text).  Channels: Base/Chan.lean, Lemmas/Chan.lean.
+Spec: Spec/UniprotDoc.lean (documents with k entries as XML token sequences, their text, and the trace a
+document has by construction) and Spec/XmlScan.lean (an independent reader of the TEXT: lexer, nesting,
+Parse loop and DecodeElement(&Entry) as a state machine).  Channels: Base/Chan.lean, Lemmas/Chan.lean.
 All statements are for every trace (any number of entries), every pair of capacities and every schedule
 (`Reach` = any finite interleaving; `Stuck` = the run cannot be extended).  `seq = true` is the documented
 consumer (drain entries, then errors), `seq = false` drains both concurrently.
 -/
 namespace PolyVerif.Props.C20
-open PolyVerif PolyVerif.Chan PolyVerif.Uniprot PolyVerif.Spec.UniprotSpec
+open PolyVerif PolyVerif.Chan PolyVerif.Uniprot PolyVerif.Spec.UniprotSpec PolyVerif.Spec.XmlScan
 
 /-- no run is infinite, whatever the stream, the capacities and the consumer; a run has at most
 `3·(entries + errors + 2) + 2` steps -/
@@ -204,19 +206,136 @@ theorem docTrace_clean (d : Doc) : Clean (docTrace d) := by
       subst h; rfl
   · simp [docTrace, isStartEv]
 
-/-- CLAUSE 1 ON DOCUMENTS.  For every document `d` of the spec (any number k of entries, any accessions,
-names and sequence texts, with or without attributes, other children and material between entries), every
-capacity of either channel, both consumers and every schedule: a maximal run on the document's token trace
-has delivered exactly the k entries of `d` in document order, each with its accessions, names and
-sequence text, no error, and both channels are closed.  (That the real decoder produces `docTrace d` for
-the text `renderDoc d` is the recorded assumption, checked by the driver on every undamaged case.) -/
-theorem document_delivers (d : Doc) (seq : Bool) (entCap errCap : Nat) (s : Sys Msg)
-    (hr : Reach (consumer seq) (system entCap errCap (docTrace d)) s) (hs : Stuck (consumer seq) s) :
+/-! ### the content clauses at the level of the document TEXT
+
+`Spec.XmlScan.scanDoc : text → Trace` is an independent reader (lexer for the XML subset, nesting check,
+Parse loop, DecodeElement(&Entry) as a state machine over tokens).  The theorems below are about it and
+the text `renderDoc d`; that encoding/xml + the Entry unmarshalling behave like `scanDoc` is the recorded
+assumption, compared by the driver on EVERY generated text, damaged ones included (`scanOk`).
+`WFDoc d`: every entry is valid against the schema and its texts lie in the subset's character data. -/
+
+/-- the independent reader, on the text of a document, sees exactly the trace the document has by
+construction: its k entries in order, each with the accessions, names and sequence text written into it
+(children of other elements, e.g. the organism's `name`s, do not leak), no error, end of input -/
+theorem scan_document (d : Doc) (h : WFDoc d) : scanDoc (renderDoc d).text = docTrace d := by
+  obtain ⟨tl, e, hl, hx⟩ := lexAll_render (docToks d) [] (wfToks_docToks d h) (fun _ _ _ => .inl rfl)
+  obtain ⟨rfl, rfl⟩ := hx rfl
+  simp only [List.append_nil] at hl
+  show scanToks (lexAll (renderToks (docToks d))).1 (lexAll (renderToks (docToks d))).2 = docTrace d
+  rw [hl]
+  exact scanToks_docToks d
+
+/-- CLAUSE 1 ON DOCUMENTS.  For every document `d` (any number k of entries; any accessions, names and
+sequence texts of the subset; with or without attributes, other children and material between entries),
+every capacity of either channel, both consumers and every schedule: a maximal run of uniprot.Parse on what
+the reader makes of the TEXT of `d` has delivered exactly the k entries of `d` in document order, each with
+its accessions, names and sequence text, no error, and both channels are closed. -/
+theorem document_delivers (d : Doc) (h : WFDoc d) (seq : Bool) (entCap errCap : Nat) (s : Sys Msg)
+    (hr : Reach (consumer seq) (system entCap errCap (scanDoc (renderDoc d).text)) s)
+    (hs : Stuck (consumer seq) s) :
     deliveredOf s = d.entries.map DocEntry.toEntry ∧ (deliveredOf s).length = d.entries.length ∧
       recvd 1 s.hist = [] ∧ bothClosed s = true := by
-  have h := wellformed_delivers (docTrace d) (docTrace_clean d) seq entCap errCap s hr hs
-  rw [docTrace_entries] at h
-  exact ⟨h.1, by rw [h.1, List.length_map], h.2.1, h.2.2⟩
+  rw [scan_document d h] at hr
+  have hw := wellformed_delivers (docTrace d) (docTrace_clean d) seq entCap errCap s hr hs
+  rw [docTrace_entries] at hw
+  exact ⟨hw.1, by rw [hw.1, List.length_map], hw.2.1, hw.2.2⟩
+
+/-- the text of the document through the `</entry>` of the entry `e` that follows the entries `pre` -/
+def textThrough (prolog : Nat) (pre : List DocEntry) (e : DocEntry) : Str := renderToks (toksThrough prolog pre e)
+
+theorem entriesOf_bodyEvs (ds : List DocEntry) : entriesOf (bodyEvs ds) = ds.map DocEntry.toEntry :=
+  entriesOf_docBody ds
+
+theorem entriesOf_evsThrough (prolog : Nat) (pre : List DocEntry) (e : DocEntry) :
+    entriesOf (evsThrough prolog pre e) = (pre ++ [e]).map DocEntry.toEntry := by
+  have hp : entriesOf (prologEvs prolog) = [] := by
+    match prolog with
+    | 0 => rfl
+    | 1 => rfl
+    | _ + 2 => rfl
+  simp [evsThrough, entriesOf_append, hp, entriesOf_bodyEvs, entriesOf]
+
+/-- whatever follows the `</entry>` of an entry — nothing, the rest of the document, a cut or corrupted
+rest, anything — the reader has by then seen exactly the entries up to it -/
+theorem scan_prefix (prolog : Nat) (pre : List DocEntry) (e : DocEntry) (h : ∀ x ∈ pre ++ [e], WFDocEntry x)
+    (X : Str) : ∃ more, (scanDoc (textThrough prolog pre e ++ X)).evs = evsThrough prolog pre e ++ more := by
+  obtain ⟨hw, he⟩ := toksThrough_ok prolog pre e h X
+  obtain ⟨tl, er, hl, _⟩ := lexAll_render (toksThrough prolog pre e) X hw he
+  unfold scanDoc textThrough
+  rw [hl]
+  unfold scanToks
+  rw [run_toksThrough]
+  obtain ⟨m1, h1⟩ := run_evs tl (atTop true [s "uniprot"] (evsThrough prolog pre e).reverse)
+  obtain ⟨m2, h2⟩ := finish_evs (run (atTop true [s "uniprot"] (evsThrough prolog pre e).reverse) tl) er
+  refine ⟨m1.reverse ++ m2, ?_⟩
+  rw [h2, h1]
+  simp [atTop]
+
+/-- the document itself agrees with `textThrough` on its first bytes: so do all its truncations and
+overwrites at or after that offset -/
+theorem document_agrees (d : Doc) (pre : List DocEntry) (e : DocEntry) (post : List DocEntry)
+    (hd : d.entries = pre ++ e :: post) :
+    (renderDoc d).text.take (textThrough d.prolog pre e).length = textThrough d.prolog pre e := by
+  have : docToks d = toksThrough d.prolog pre e ++ (fillerToks e.filler ++ entriesToks post ++
+      [.close (s "uniprot")] ++ (if d.trailingNl then [nl] else [])) := by
+    simp [docToks, toksThrough, hd, entriesToks, List.flatMap_append]
+  show (renderToks (docToks d)).take _ = _
+  rw [this, renderToks_append]
+  exact List.take_left' rfl
+
+theorem entryEndsFrom_index : ∀ (pre : List DocEntry) (e : DocEntry) (post : List DocEntry) (start : Nat),
+    (entryEndsFrom start (pre ++ e :: post))[pre.length]? =
+      some (start + (renderToks (entriesToks pre)).length + (renderToks (entryToks e)).length)
+  | [], e, post, start => by simp [entryEndsFrom, entriesToks, renderToks]
+  | d :: pre, e, post, start => by
+    have ih := entryEndsFrom_index pre e post (start + (renderToks (entryToks d)).length + (renderToks (fillerToks d.filler)).length)
+    simp only [List.cons_append, entryEndsFrom, List.length_cons, List.getElem?_cons_succ, ih, entriesToks,
+      List.flatMap_cons, renderToks_append, List.length_append, Option.some.injEq]
+    omega
+
+/-- the offset the judge uses for "entries before the damage" (`Rendered.entryEnds`) is the length of
+`textThrough`: a cut or overwrite at an offset `≥ entryEnds[k]` leaves the text through entry k intact -/
+theorem entryEnds_textThrough (d : Doc) (pre : List DocEntry) (e : DocEntry) (post : List DocEntry)
+    (hd : d.entries = pre ++ e :: post) :
+    (renderDoc d).entryEnds[pre.length]? = some (textThrough d.prolog pre e).length := by
+  simp only [renderDoc, hd, entryEndsFrom_index, textThrough, toksThrough, renderToks_append, List.length_append,
+    Option.some.injEq]
+  omega
+
+/-- CLAUSE 2 ON DOCUMENTS ("delivers the entries that precede the damage … and terminates with both channels
+closed").  Let the document's entries be `pre ++ e :: post` and let `T` be ANY stream that agrees with the
+document's text through the `</entry>` of `e` (the document cut anywhere after it, a byte overwritten after
+it, anything appended).  Then, for every capacity of either channel (0 included), both consumers and every
+schedule, a maximal run of uniprot.Parse on what the reader makes of `T` has delivered the entries
+`pre ++ [e]`, with their accessions, names and sequence texts, as the first entries, both channels are
+closed, the errors received are those the loop kept, and there is at least one if the reader's trace of `T`
+is not that of a well-formed document.  (NOT proved here: that every cut or corrupted `T` gives such a
+trace — the reader's / decoder's error detection; see PARTIAL.) -/
+theorem damaged_document_delivers (d : Doc) (pre : List DocEntry) (e : DocEntry) (post : List DocEntry)
+    (hd : d.entries = pre ++ e :: post) (h : WFDoc d) (T : Str)
+    (hT : T.take (textThrough d.prolog pre e).length = textThrough d.prolog pre e)
+    (seq : Bool) (entCap errCap : Nat) (st : Sys Msg)
+    (hr : Reach (consumer seq) (system entCap errCap (scanDoc T)) st) (hs : Stuck (consumer seq) st) :
+    (pre ++ [e]).map DocEntry.toEntry <+: deliveredOf st ∧ bothClosed st = true ∧
+      (recvd 1 st.hist).length = numErrors (scanDoc T) ∧ (¬ Clean (scanDoc T) → 1 ≤ (recvd 1 st.hist).length) := by
+  have hwf : ∀ x ∈ pre ++ [e], WFDocEntry x := by
+    intro x hx
+    apply h x
+    rw [hd]
+    simp only [List.mem_append, List.mem_cons, List.not_mem_nil, or_false] at hx ⊢
+    rcases hx with hx | hx
+    · exact .inl hx
+    · exact .inr (.inl hx)
+  have hTX : T = textThrough d.prolog pre e ++ T.drop (textThrough d.prolog pre e).length := by
+    conv => lhs; rw [← List.take_append_drop (textThrough d.prolog pre e).length T, hT]
+  obtain ⟨more, hm⟩ := scan_prefix d.prolog pre e hwf (T.drop (textThrough d.prolog pre e).length)
+  rw [← hTX] at hm
+  have hf := finished_outcome (scanDoc T) st (maximal_finished (scanDoc T) seq entCap errCap st hr hs)
+  refine ⟨?_, hf.2.2, by simp [hf.2.1], fun hc => ?_⟩
+  · rw [hf.1, hm, entriesOf_append, entriesOf_evsThrough]
+    exact List.prefix_append _ _
+  · rw [hf.2.1, List.length_replicate]
+    exact (numErrors_pos_iff _).mpr hc
 
 /-- the scheduler run used by the driver is a maximal `Step`-path, so the theorems above apply to it -/
 theorem run_is_maximal (seq eager : Bool) (entCap errCap : Nat) (t : Trace) :
@@ -254,6 +373,8 @@ example : sendsBeforeClose0 (program tCut) = some 0 := by decide
 def exDoc : Doc := { prolog := 2, trailingNl := true, entries :=
   [{ accessions := ["P1".toList], names := ["AB_X".toList], seq := "MKV".toList, attrs := 1, extra := true, filler := 1 },
    { accessions := [], names := [], seq := [], attrs := 0, extra := false, filler := 3 }] }
+example : WFDoc exDoc := by decide
+example : (renderDoc exDoc).entryEnds.length = 2 := by decide
 example : (docTrace exDoc).evs.length = 15 ∧ entriesOf (docTrace exDoc).evs = exDoc.entries.map DocEntry.toEntry := by decide
 
 end PolyVerif.Props.C20
